@@ -46,3 +46,18 @@ Example C05_example :
   /\ valid_call_b (VL [VS "set_vring_addr"; VN 0; VN 1; VN 4097; VN 8192; VN 12290; VN 0]) = false
   /\ valid_call_b (VL [VS "set_vring_enable"; VN 0; VN 2]) = false.
 Proof. vm_compute. repeat split. Qed.
+
+(* the vring-descriptor request over the expressions REGENERATED from handle_vring_fd_request (Gen.GenVrfd), which the
+   request-server model calls: it is served exactly when the flag is clear and a single descriptor came with it, or the
+   flag is set and no descriptor came at all; the flag is bit 8 of the payload; the handler's ring index is below 256 *)
+From VV Require Import Gen.GenVrfd.
+Theorem C05_vring_fd_rule_regenerated : forall has_fd some nofiles,
+  vrf_reject has_fd some nofiles = false <-> (has_fd = true /\ some = true) \/ (has_fd = false /\ nofiles = true).
+Proof. exact vrf_reject_spec. Qed.
+Print Assumptions C05_vring_fd_rule_regenerated.
+Theorem C05_vring_fd_flag_regenerated : forall v, vrf_has_fd v = negb (N.testbit v 8).
+Proof. exact vrf_has_fd_bit. Qed.
+Print Assumptions C05_vring_fd_flag_regenerated.
+Theorem C05_vring_fd_index_regenerated : forall v, vrf_index v < 256.
+Proof. exact vrf_index_small. Qed.
+Print Assumptions C05_vring_fd_index_regenerated.
